@@ -57,6 +57,9 @@ type preSvc struct {
 	Slot, Variant int
 	Status        []string
 	FromPool      string
+	// Terminating: the Service is being deleted (deletionTimestamp set, kept by a finalizer): it still exists and still
+	// holds what is recorded for it
+	Terminating bool
 }
 
 type crashSignal struct{ when string }
@@ -172,6 +175,11 @@ func newCtlSys(u *universe) *ctlSys {
 				svc.Annotations = map[string]string{}
 			}
 			svc.Annotations[refalloc.AnnFromPool] = p.FromPool
+		}
+		if p.Terminating {
+			now := metav1.Now()
+			svc.DeletionTimestamp = &now
+			svc.Finalizers = []string{"example.com/hold"}
 		}
 		s.store.Put(svc)
 		s.svcQ.Add(u.Slots[p.Slot].Key())
